@@ -577,7 +577,7 @@ private:
     }
 
     char peek() const {
-        return input_[pos_];
+        return eof() ? '\0' : input_[pos_];
     }
 
     char get() {
